@@ -26,6 +26,91 @@ func (x *Exec) evalArgs(es []ast.Expr, st *St, fr *Frame, k func(*St, []*Val)) {
 }
 
 func (x *Exec) evalCall(call *ast.CallExpr, st *St, fr *Frame, k kval) {
+	if hooks := x.afterHooksFor(call, fr); len(hooks) > 0 {
+		k0 := k
+		k = func(st *St, v *Val) {
+			x.applyAfterHooks(hooks, call, st, fr, v)
+			if !st.dead {
+				k0(st, v)
+			}
+		}
+	}
+	x.evalCall0(call, st, fr, k)
+}
+
+// calleeName: the identifier a call names its callee by (f(...), x.m(...), pkg.F(...)).
+func calleeName(call *ast.CallExpr) string {
+	switch f := ast.Unparen(call.Fun).(type) {
+	case *ast.Ident:
+		return f.Name
+	case *ast.SelectorExpr:
+		return f.Sel.Name
+	case *ast.IndexExpr:
+		if id, ok := ast.Unparen(f.X).(*ast.Ident); ok {
+			return id.Name
+		}
+	}
+	return ""
+}
+
+// afterHooksFor: the "after callee: G := e" clauses of the contract under verification that apply to this call
+// (only calls written in the body of the function under contract itself, not in inlined callees).
+func (x *Exec) afterHooksFor(call *ast.CallExpr, fr *Frame) []*AfterHook {
+	if x.pure || x.C == nil || len(x.C.Afters) == 0 || fr == nil || fr.inlined {
+		return nil
+	}
+	nm := calleeName(call)
+	if nm == "" {
+		return nil
+	}
+	var out []*AfterHook
+	for _, h := range x.C.Afters {
+		if h.Callee == nm {
+			out = append(out, h)
+		}
+	}
+	return out
+}
+
+func (x *Exec) applyAfterHooks(hooks []*AfterHook, call *ast.CallExpr, st *St, fr *Frame, v *Val) {
+	extra := map[string]*Val{}
+	if v != nil {
+		if v.Tuple != nil {
+			for i, rv := range v.Tuple {
+				extra[fmt.Sprintf("result%d", i)] = rv
+			}
+			if len(v.Tuple) > 0 {
+				extra["result"] = v.Tuple[0]
+			}
+		} else if v.T != nil || v.Fields != nil {
+			extra["result"] = v
+			extra["result0"] = v
+		}
+	}
+	env := &CEnv{X: x, Names: x.localNames(st, fr, extra), St: st, Pkg: x.Fn.Pkg}
+	x.wrapCfail("after-call ghost update in "+x.C.Key, func() {
+		vals := make([]*Term, len(hooks))
+		for i, h := range hooks {
+			vals[i] = env.tr(h.Expr).T
+		}
+		for i, h := range hooks {
+			g, ok := x.W.GhostVars[h.Var]
+			if !ok {
+				cfail("after %s: unknown ghost variable %s", h.Callee, h.Var)
+			}
+			if vals[i] == nil || vals[i].Sort != g.Sort {
+				cfail("after %s: value of %s has the wrong sort", h.Callee, h.Var)
+			}
+			x.checkWrite(st, g.Key, Null, call.Pos())
+			nw := x.fresh(g.Key, g.Sort)
+			x.assume(st, Eq(nw, vals[i]))
+			st.heap[g.Key] = nw
+		}
+	})
+	st.note("ghost update after the call of %s at %s", calleeName(call), x.W.pos(call.Pos()))
+}
+
+func (x *Exec) evalCall0(call *ast.CallExpr, st *St, fr *Frame, k kval) {
 	fun := ast.Unparen(call.Fun)
 	// generic instantiation f[T](...)
 	if ix, ok := fun.(*ast.IndexExpr); ok {
@@ -439,6 +524,15 @@ func (x *Exec) runBody(nf *Frame, ft *ast.FuncType, sig *types.Signature, body *
 		var run func(i int, st *St)
 		run = func(i int, st *St) {
 			if i < 0 {
+				if len(ds) > 0 && len(nf.results) == len(vals) && len(vals) > 0 {
+					// named results: a deferred function may have assigned them after the return statement set them
+					vals = append([]*Val(nil), vals...)
+					for j, r := range nf.results {
+						if v, ok := st.vars[r]; ok && v != nil {
+							vals[j] = v
+						}
+					}
+				}
 				switch len(vals) {
 				case 0:
 					k(st, &Val{})
@@ -463,6 +557,12 @@ func (x *Exec) runBody(nf *Frame, ft *ast.FuncType, sig *types.Signature, body *
 		for i := range vals {
 			if i < sig.Results().Len() {
 				vals[i] = x.coerce(st, vals[i], nf.subst(sig.Results().At(i).Type()))
+			}
+		}
+		if len(nf.results) == len(vals) {
+			// a return statement assigns the named results before the deferred calls run
+			for j, r := range nf.results {
+				st.vars[r] = vals[j]
 			}
 		}
 		finish(st, vals)
@@ -668,6 +768,23 @@ func (x *Exec) callContract(call *ast.CallExpr, c *Contract, obj *types.Func, fi
 			names[pnames[i]] = x.coerce(st, a, fr.subst(pt))
 		}
 	}
+	for _, pn := range sortedKeys(c.ParamSubj) {
+		// the names the callee's contract gives to the subjects of a stream argument
+		v := names[pn]
+		want := x.W.protoOf(c.ParamProto[pn])
+		sc := x.W.CS.ByKey[want]
+		refined := v != nil && v.Proto != want && x.W.protoCompatible(v.Proto, want)
+		for i, sn := range c.ParamSubj[pn] {
+			if refined {
+				// a stream value of a refining stream: seen as the refined stream its subjects are nil
+				names[sn] = x.nullSubject(sc, i)
+			} else if v != nil && i < len(v.Subj) && v.Subj[i] != nil {
+				names[sn] = v.Subj[i]
+			} else {
+				x.wrapCfail("subjects of argument "+pn, func() { names[sn] = x.freshSubject(st, sc, i, sn) })
+			}
+		}
+	}
 	for pn, proto := range c.ParamProto {
 		if v, ok := names[pn]; ok && v != nil && !x.W.protoCompatible(v.Proto, x.W.protoOf(proto)) {
 			pos := x.W.pos(call.Pos())
@@ -683,6 +800,17 @@ func (x *Exec) callContract(call *ast.CallExpr, c *Contract, obj *types.Func, fi
 	pos := x.W.pos(call.Pos())
 	pre := st.clone()
 	env := &CEnv{X: x, Names: names, St: st, Pkg: pkg}
+	if len(c.Carries) > 0 {
+		// the protocol of a channel travels with the argument value
+		for i, a := range args {
+			if i < len(pnames) && a != nil && names[pnames[i]] != nil && strings.HasPrefix(a.Proto, "chan.") {
+				cp := *names[pnames[i]]
+				cp.Proto, cp.Subj = a.Proto, a.Subj
+				names[pnames[i]] = &cp
+			}
+		}
+		x.checkCarries(c, names, env, st, "call#"+short, pos)
+	}
 	x.wrapCfail("precondition of "+c.Key, func() {
 		for _, r := range c.Requires {
 			x.emit(st, oblTemplate{kind: "pre", label: r.Label, clause: r.Text, props: r.Props, pos: pos,
@@ -731,6 +859,7 @@ func (x *Exec) callContract(call *ast.CallExpr, c *Contract, obj *types.Func, fi
 		if p, ok := c.ParamProto[fmt.Sprintf("result%d", i)]; ok {
 			rv.Proto = x.W.protoOf(p)
 		}
+		x.carriedResult(c, i, rv, env)
 		rvals = append(rvals, rv)
 		post[rn[i]] = rv
 		if i == 0 {
